@@ -2,6 +2,7 @@ package filecache
 
 import (
 	"fmt"
+	"github.com/ErdemOzgen/blackdagger/internal/verifhook"
 	"os"
 	"sync"
 	"sync/atomic"
@@ -101,6 +102,7 @@ func (c *Cache[T]) LoadLatest(
 			var zero T
 			return zero, err
 		}
+		verifhook.Point("filecache.loaded", fileName)
 		c.Store(fileName, data, lastModified)
 		return data, nil
 	}
